@@ -109,7 +109,7 @@ func c03Run(r *Run, c c03Config) {
 		o := w.Apply(a)
 		pre = append(pre, a)
 		if !o.OK {
-			r.HarnessError("preamble %s failed: %s%s", a.Desc, o.Err, o.PanicVal)
+			panic(preambleFailed{fmt.Sprintf("%s: %s%s", a.Desc, o.Err, o.PanicVal)})
 		}
 	}
 	// a used nonce, established by a real receive: (0, 7)
